@@ -381,6 +381,16 @@ class Ctx:
         ))
         return True
 
+    def mismatch(self, corr: str, case, model, impl):
+        """Model and implementation disagree on `case` while the property oracle found nothing wrong
+        with the implementation: the correspondence no longer checks (first few cases are kept)."""
+        self.count('correspondence_mismatch')
+        for b in self.broken:
+            if b['what'] == f'correspondence {corr} disagrees':
+                b['n'] = b.get('n', 1) + 1
+                return
+        self.broken.append(dict(what=f'correspondence {corr} disagrees', detail=canon(dict(case=case, model=model, impl=impl))[:6000], n=1))
+
     def broken_obligation(self, what: str, detail: str):
         """A theorem or a correspondence/translator no longer checks."""
         self.broken.append(dict(what=what, detail=detail[-3000:]))
